@@ -34,7 +34,7 @@ def field(eng, v, tyname, fname):
     return v.f[eng.struct_adt(tyname).field_index(fname)]
 
 
-def inputs(eng, src, v6, fraction):
+def inputs(eng, src, v6, fraction, extra=None):
     """named inputs of one add/remove case: config, network size, candidate analysis, the enforcer's maps probed at the
     candidate's keys ('cand') and at one arbitrary other key per map ('other')"""
     cfg = {f: src.bv("cfg." + f, 64) for f in CFG_FIELDS}
@@ -77,6 +77,8 @@ def inputs(eng, src, v6, fraction):
         probes[n] = {"other": others[n]}
         if n in keys:
             probes[n]["cand"] = keys[n]
+        if extra and n in extra:
+            probes[n].update(extra[n])
     maps0 = {n: src.map("E." + n, kw, bv(0, 64), probes[n], cap=50_000) for n, kw in MAPS}
     return cfg, size, uni, keys, lv, c_some, others, probes, maps0
 
@@ -361,6 +363,9 @@ def run(tier):
     ck.guarded("analyze", lambda: group_analyze(ck))
     for p in (["default", "permissive"] if tier == "quick" else ["default", "testnet", "permissive"]):
         ck.guarded(f"misc[{p}]", lambda p=p: group_misc(ck, p))
+    import c13_engine
+
+    c13_engine.register_all(ck, tier)
     ck.run_queries()
     ck.out.bounds = [
         "one add / remove / can_accept step from an ARBITRARY enforcer state: 8 LruCaches as SMT arrays over 128/32/64-bit keys, all 10 integer caps symbolic u64, network_size <= 2^32",
@@ -368,8 +373,8 @@ def run(tier):
         "arbitrary candidate analysis: arbitrary prefixes, ASN present or not, country present or not, hosting / VPN flags",
         "representation invariant assumed and re-proved: every tracked key has count >= 1",
     ]
-    ck.out.outside = ["DhtCoreEngine::add_node / evict_node / handle_node_failure and BootstrapManager::add_peer (async call sites: whether the gate is applied and slots returned there)",
-                      "LRU eviction at 50k tracked prefixes", "GeoProvider lookups (geo_provider = None)", "network sizes above 2^32", "other fractions"]
+    ck.out.bounds += c13_engine.BOUNDS
+    ck.out.outside = ["LRU eviction at 50k tracked prefixes", "GeoProvider lookups (geo_provider = None)", "network sizes above 2^32", "other fractions"] + c13_engine.OUTSIDE
     ck.out.assumptions = ["cap in force is the one at admission time (set_network_size may lower the dynamic IPv4 cap below existing counts; no retroactive eviction is demanded)",
                           "single-threaded execution"]
     ck.out.trusted.append("z3 4.8.12 / z3 5.1 / cvc5 1.0 portfolio")
@@ -381,6 +386,10 @@ def replay(path):
 
 
 def _rebuild(ck, driver, params):
+    if driver in ("admission", "admission_step"):
+        import c13_engine
+
+        return c13_engine.rebuild(ck, driver, params)
     if driver == "misc":
         return lambda s, obs: build_misc(ck, params["preset"], s, obs)
     if driver == "add_remove":
